@@ -307,7 +307,14 @@ func thorough(prop, repo, verif string, seed int) *thoroughResult {
 			if strings.Count(string(b), ct.Old) != 1 {
 				return false, fmt.Sprintf("anchor text occurs %d times in %s", strings.Count(string(b), ct.Old), ct.File)
 			}
-			if err := os.WriteFile(p, []byte(strings.Replace(string(b), ct.Old, ct.New, 1)), 0o644); err != nil {
+			out := strings.Replace(string(b), ct.Old, ct.New, 1)
+			if ct.Old2 != "" {
+				if strings.Count(out, ct.Old2) != 1 {
+					return false, fmt.Sprintf("second anchor text occurs %d times in %s", strings.Count(out, ct.Old2), ct.File)
+				}
+				out = strings.Replace(out, ct.Old2, ct.New2, 1)
+			}
+			if err := os.WriteFile(p, []byte(out), 0o644); err != nil {
 				return false, err.Error()
 			}
 			return true, ""
